@@ -15,7 +15,8 @@ vars == <<fam, n>>
 
 Families == {"rep_call0", "rep_call1", "rep_arr0", "rep_marked", "nest_blk", "nest_if", "nest_fn", "nest_fnexpr", "nest_call",
              "nest_paren", "nest_arr", "nest_not", "nest_asg", "nest_obj", "chain_plus", "chain_mem", "chain_call", "many_names",
-             "rep_let_fn", "nest_while_call", "long_str", "long_ident", "bad_let", "bad_call", "rep_if_else"}
+             "rep_let_fn", "nest_while_call", "long_str", "long_ident", "bad_let", "bad_call", "rep_if_else",
+             "blk_fn", "if_fnexpr", "fn_blk_fn", "while_fnarg"}
 \* families whose instances are cheap: they also take the sizes in BigSizes
 BigFams == {"rep_call0", "rep_call1", "rep_marked", "bad_let", "bad_call", "long_str", "chain_plus", "many_names"}
 
@@ -79,6 +80,14 @@ Tree ==
     [] fam = "nest_fn" -> Prog(Nest(WFn, <<Ret(A)>>, n))
     [] fam = "nest_fnexpr" -> Prog(Nest(WFnExpr, <<Ret(A)>>, n))
     [] fam = "nest_while_call" -> Prog(<<Node("fdecl", "", <<Id("f"), PList(<<>>), Blk(Nest(WWhileCall, <<Ret(A)>>, n))>>)>>)
+    \* cross nesting: a construct of one kind at the bottom of n levels of ANOTHER kind (a function below n
+    \* blocks / ifs / loops; a function inside n blocks inside a function), with siblings after the way out
+    [] fam = "blk_fn" -> Prog(Nest(WBlk, <<Node("fdecl", "", <<Id("h"), PList(<<Id("p")>>), Blk(<<E(A), Ret(Id("p"))>>)>>), E(B)>>, n))
+    [] fam = "if_fnexpr" -> Prog(Nest(WIf, <<E(Call(Id("g"), <<Fn(Nil, <<>>, <<E(B), E(Node("asg", "=", <<A, B>>))>>)>>)), E(A)>>, n) \o <<E(B)>>)
+    [] fam = "fn_blk_fn" -> Prog(<<Node("fdecl", "", <<Id("f"), PList(<<>>),
+                                   Blk(Nest(WBlk, <<Let("g", Fn(Nil, <<>>, <<Ret(A)>>)), Ret(B)>>, n))>>), E(A)>>)
+    [] fam = "while_fnarg" -> Prog(Nest(LAMBDA x : <<Node("while", "", <<A, Blk(x)>>)>>,
+                                       <<Let("o", Node("obj", "", <<Id("k"), Fn(Nil, <<>>, <<Ret(A)>>)>>)), E(B)>>, n))
     [] fam = "nest_call" -> Prog(<<E(Nest(WCall, A, n))>>)
     [] fam = "nest_paren" -> Prog(<<Let("x", Nest(WParen, A, n))>>)
     [] fam = "nest_arr" -> Prog(<<Let("x", Nest(WArr, A, n))>>)
